@@ -15,15 +15,15 @@ VARIABLES l, dv, why
 tvars == <<st, l, dv, why>>
 
 DevOrder == <<KF_C05_NonPositiveTail, KF_C05_DenseNumExceedsSize, KF_C05_FallbackNumExceedsSize,
-              KF_C05_PanelNumNotCapped, KF_C06_RoundedSort, KF_C06_SparseNumExceedsSize,
-              KF_C06_ReducedDofScatter>>
+              KF_C05_PanelNumNotCapped, KF_C05_ConeCylBucklingMode, KF_C06_RoundedSort, KF_C06_SparseNumExceedsSize,
+              KF_C06_ReducedDofScatter, KF_C06_DenseColumnSum>>
 KfVerdict == <<"kf:KF_C05_NonPositiveTail", "kf:KF_C05_DenseNumExceedsSize", "kf:KF_C05_FallbackNumExceedsSize",
-               "kf:KF_C05_PanelNumNotCapped", "kf:KF_C06_RoundedSort", "kf:KF_C06_SparseNumExceedsSize",
-               "kf:KF_C06_ReducedDofScatter">>
-Relevant(api, i) == IF IsLb(api) THEN i <= 4 ELSE i >= 5
+               "kf:KF_C05_PanelNumNotCapped", "kf:KF_C05_ConeCylBucklingMode", "kf:KF_C06_RoundedSort", "kf:KF_C06_SparseNumExceedsSize",
+               "kf:KF_C06_ReducedDofScatter", "kf:KF_C06_DenseColumnSum">>
+Relevant(api, i) == IF IsLb(api) THEN i <= 5 ELSE i >= 6
 DevSet(i) == IF i = 0 THEN {} ELSE {DevOrder[i]}
 
-Prob(e) == [n |-> e.p.n, cls |-> e.p.cls, s |-> InRat(e.p.s),
+Prob(e) == [n |-> e.p.n, cls |-> e.p.cls, s |-> InRat(e.p.s), zs |-> { e.p.zs[j] : j \in 1..Len(e.p.zs) },
             sp |-> Ev([i \in 1..Len(e.p.sp) |-> InRat(e.p.sp[i])])]
 Opts(e) == [api |-> e.o.api, sparse |-> e.o.sparse, num |-> e.o.num, sort |-> e.o.sort,
             reduced |-> e.o.reduced, pos |-> e.o.pos]
@@ -51,7 +51,7 @@ OmClose(z, mu, scale) ==
        IN /\ RSign(re) > 0
           /\ RLe(RAdd(Sq(RSub(RDiv(a, N), mu)), Sq(RDiv(b, N))), Sq(RMul(Tau, scale)))
 ValClose(s, z, v, scale) ==
-    IF v.id = 0 THEN TRUE
+    IF v.id = 0 THEN TRUE          \* unspecified by the model (reduced_dof subsystem, or a listed deviation: s.unspec)
     ELSE IF v.form = "lam" THEN LamClose(z, Mu(s.p, v.id), scale)
     ELSE IF v.form = "om" THEN OmClose(z, Mu(s.p, v.id), scale)
     ELSE FALSE
@@ -73,7 +73,7 @@ FreqObsOrder(s, o) ==
         \A c \in 1..(Len(o.vals)-1) : RLe(ObsRe(o.vals[c]), RMul(OnePlusSlack, ObsRe(o.vals[c+1])))
 (* the other path on the same matrices (sparse <-> dense): agreement on the claimed common prefix *)
 PeerOK(s, o, scale) ==
-    (o.peer # <<>> /\ Known(s) /\ (IF IsLb(s.o.api) THEN Regime(s.p) ELSE s.o.sort /\ ~Collision(s.p))) =>
+    (o.peer # <<>> /\ Known(s) /\ ~(~IsLb(s.o.api) /\ D(s, KF_C06_DenseColumnSum) /\ s.p.zs # {}) /\ (IF IsLb(s.o.api) THEN Regime(s.p) ELSE s.o.sort /\ ~Collision(s.p))) =>
         LET L == Min2(Len(Claimed(s)), IF IsLb(s.o.api) THEN Min2(Len(o.peer), NPos(s.p)) ELSE Len(o.peer))
         IN \A c \in 1..L : ValClose(s, o.peer[c], s.vals[c], RMul(RFromInt(2), scale))
 
@@ -91,7 +91,8 @@ Mismatch(s, e) ==
        ELSE IF o.nr # s.vec.nr \/ o.nc # nc THEN "shape-of-modes"
        ELSE IF ~(\A j \in 1..Len(o.nzrows) : o.nzrows[j] \in support) THEN "zero-pattern"
        ELSE IF \E c \in 1..o.nvals : ~ValClose(s, o.vals[c], s.vals[c], scale) THEN "values"
-       ELSE IF \E c \in 1..Min2(o.nvals, nc) : ~ResOK(o.res[c], o.vals[c]) THEN "residual"
+       ELSE IF \E c \in 1..Min2(o.nvals, nc) :
+                    ~s.unspec /\ ~ResOK(o.res[c], o.vals[c]) THEN "residual"
        ELSE IF ~LbObsOrder(s, o) \/ ~FreqObsOrder(s, o) THEN "ordering"
        ELSE IF ~PeerOK(s, o, scale) THEN "path-agreement"
        ELSE ""
@@ -105,10 +106,11 @@ TraceStep(s, e) ==
          IN StepWith(s, AscSeq(1..Min2(IF len < 0 THEN 0 ELSE len, NSp(s.p)), NSp(s.p)))
     ELSE LET s2 == StepWith(s, e.cert)
          IN IF s2.pc = "raised" THEN s2
-            ELSE IF SpectrumKnown(s) /\ ~SolverOK(s, e.cert) THEN Raise(s, "solver-contract", "SolveReduced")
+            ELSE IF SpectrumKnown(s) /\ (\A j \in 1..Len(s2.ret) : s2.ret[j] # 0) /\ ~SolverOK(s, e.cert)
+                 THEN Raise(s, "solver-contract", "SolveReduced")
             ELSE s2
 
-Idle == InitState([n |-> 3, cls |-> <<"both", "both", "both">>, sp |-> <<ROne, ROne, ROne>>, s |-> ROne],
+Idle == InitState([n |-> 3, cls |-> <<"both", "both", "both">>, sp |-> <<ROne, ROne, ROne>>, s |-> ROne, zs |-> {}],
                   [api |-> "lb", sparse |-> TRUE, num |-> 1, sort |-> FALSE, reduced |-> FALSE, pos |-> 0], {})
 Begin(k, i) == IF k <= Len(Trace) THEN Start(Trace[k], i) ELSE Idle
 
